@@ -1,9 +1,23 @@
 // C08: reduce preserves the function and only merges identical terminal siblings.
 #[path = "../common.rs"]
 mod common;
+use affinitree::linalg::affine::AffFunc;
 use affinitree::pwl::afftree::AffTree;
 use common::*;
+use ndarray::{Array2, ShapeBuilder};
 use std::panic::AssertUnwindSafe;
+
+/// the same matrix in column-major (Fortran) memory layout
+fn f_order(a: &Array2<f64>) -> Array2<f64> {
+    let mut b = Array2::<f64>::zeros((a.nrows(), a.ncols()).f());
+    b.assign(a);
+    b
+}
+/// the matrix whose column-major memory equals the row-major memory of `a` (the transpose, for square a)
+fn same_buffer_other_layout(a: &Array2<f64>) -> Array2<f64> {
+    let data: Vec<f64> = a.iter().cloned().collect();
+    Array2::from_shape_vec((a.nrows(), a.ncols()).f(), data).unwrap()
+}
 
 fn one_case(r: &mut Rng, id: usize, out: &mut String) {
     let n = 1 + r.below(3);
@@ -37,6 +51,50 @@ fn one_case(r: &mut Rng, id: usize, out: &mut String) {
                 }
             }
             t.update_node(i, f).unwrap();
+        }
+    }
+    // memory layout must not matter: equal functions stored row-major / column-major are equal siblings, different
+    // functions that merely share their buffer contents are not
+    let decs: Vec<usize> = t.tree.decision_indices().collect();
+    for d in decs.iter().cloned() {
+        let kids: Vec<(usize, usize)> = t.tree.children(d).map(|e| (e.label, e.target_idx)).collect();
+        if kids.len() != 2 || !kids.iter().all(|(_, c)| t.tree.is_leaf(*c).unwrap()) {
+            continue;
+        }
+        match r.below(8) {
+            0 => {
+                // same function, other layout
+                let f = t.tree.node_value(kids[0].1).unwrap().aff.clone();
+                let g = AffFunc::from_mats(f_order(&f.mat), f.bias.clone());
+                t.update_node(kids[0].1, f).unwrap();
+                t.update_node(kids[1].1, g).unwrap();
+            }
+            1 if m >= 2 && n >= 2 => {
+                // different functions, same buffer contents
+                let f = t.tree.node_value(kids[0].1).unwrap().aff.clone();
+                let g = AffFunc::from_mats(same_buffer_other_layout(&f.mat), f.bias.clone());
+                t.update_node(kids[0].1, f).unwrap();
+                t.update_node(kids[1].1, g).unwrap();
+            }
+            _ => {}
+        }
+    }
+    // a terminal whose function coincides with the predicate of its sibling DECISION must not be merged with it
+    if m == 1 {
+        for d in decs.iter().cloned() {
+            let kids: Vec<(usize, usize)> = t.tree.children(d).map(|e| (e.label, e.target_idx)).collect();
+            if kids.len() != 2 || !r.chance(1, 3) {
+                continue;
+            }
+            let l0 = t.tree.is_leaf(kids[0].1).unwrap();
+            let l1 = t.tree.is_leaf(kids[1].1).unwrap();
+            if l0 != l1 {
+                let (term, dec) = if l0 { (kids[0].1, kids[1].1) } else { (kids[1].1, kids[0].1) };
+                let p = t.tree.node_value(dec).unwrap().aff.clone();
+                if p.outdim() == 1 {
+                    t.update_node(term, p).unwrap();
+                }
+            }
         }
     }
     let before = sx_tree(&t);
